@@ -129,4 +129,92 @@ example : resolveService (fun p => if p = "opt.env" then .directory else .file t
     [⟨"opt.env", false⟩] [] = .err "read" "opt.env" := by decide
 example : resolveService (fun _ => .absent) true [⟨"a.env", true⟩] ["a.labels"] = .err "notFound" "a.labels" := by decide
 
+
+/-! ## all services of a project (round 6) -/
+
+theorem envPass_ok_iff (fs : String → Disk) : ∀ (svcs : List Svc) (acc : List String),
+    (envPass fs svcs acc).isOk = true ↔ ∀ s ∈ svcs, (loadEnvFiles fs s.envFiles []).isOk = true
+  | [], acc => by simp [envPass, Out.isOk]
+  | s :: r, acc => by
+    unfold envPass
+    cases h : loadEnvFiles fs s.envFiles [] with
+    | err c p => simp [Out.isOk, h]
+    | ok l =>
+      have ih := envPass_ok_iff fs r (acc ++ l)
+      simp only [List.forall_mem_cons, h]
+      exact ⟨fun hh => ⟨rfl, ih.mp hh⟩, fun hh => ih.mpr hh.2⟩
+
+theorem labelPass_ok_iff (fs : String → Disk) : ∀ (svcs : List Svc) (acc : List String),
+    (labelPass fs svcs acc).isOk = true ↔ ∀ s ∈ svcs, (loadLabelFiles fs s.labelFiles []).isOk = true
+  | [], acc => by simp [labelPass, Out.isOk]
+  | s :: r, acc => by
+    unfold labelPass
+    cases h : loadLabelFiles fs s.labelFiles [] with
+    | err c p => simp [Out.isOk, h]
+    | ok l =>
+      have ih := labelPass_ok_iff fs r (acc ++ l)
+      simp only [List.forall_mem_cons, h]
+      exact ⟨fun hh => ⟨rfl, ih.mp hh⟩, fun hh => ih.mpr hh.2⟩
+
+/-- the project resolves iff every service does, each on its own: nothing is carried from one service to the next -/
+theorem resolveProject_ok_iff (fs : String → Disk) (skipEnv : Bool) (svcs : List Svc) :
+    (resolveProject fs skipEnv svcs).isOk = true ↔
+      (skipEnv = true ∨ ∀ s ∈ svcs, (loadEnvFiles fs s.envFiles []).isOk = true) ∧
+      ∀ s ∈ svcs, (loadLabelFiles fs s.labelFiles []).isOk = true := by
+  rw [← envPass_ok_iff fs svcs [], ← labelPass_ok_iff fs svcs []]
+  unfold resolveProject
+  cases skipEnv with
+  | true =>
+    simp only [if_true]
+    cases labelPass fs svcs [] <;> simp [Out.isOk]
+  | false =>
+    simp only [Bool.false_eq_true, if_false, false_or]
+    cases envPass fs svcs [] <;> cases labelPass fs svcs [] <;> simp [Out.isOk]
+
+/-- whether the project resolves does not depend on the order in which the Go map hands out the services -/
+theorem resolveProject_ok_perm (fs : String → Disk) (skipEnv : Bool) (svcs svcs' : List Svc) (hp : svcs.Perm svcs') :
+    (resolveProject fs skipEnv svcs).isOk = (resolveProject fs skipEnv svcs').isOk := by
+  rw [Bool.eq_iff_iff, resolveProject_ok_iff, resolveProject_ok_iff]
+  simp only [hp.mem_iff]
+
+/-- **the clause, for a whole project**: if ANY service lists, at ANY position, a required env file that is not there,
+the project does not resolve — whatever other references to the same path exist (optional ones, earlier ones, in the
+same or in other services) and in whatever order the services are visited.  (What seeded change C01-8 falsifies.) -/
+theorem project_required_env_file_missing_err (fs : String → Disk) (svcs : List Svc) (s : Svc) (e : EnvFile)
+    (hs : s ∈ svcs) (he : e ∈ s.envFiles) (hr : e.required = true) (hm : isMissing (fs e.path) = true) :
+    (resolveProject fs false svcs).isOk = false := by
+  cases h : (resolveProject fs false svcs).isOk with
+  | false => rfl
+  | true =>
+    exfalso
+    have h1 := ((resolveProject_ok_iff fs false svcs).mp h).1
+    simp only [Bool.false_eq_true, false_or] at h1
+    have h2 := h1 s hs
+    cases hl : loadEnvFiles fs s.envFiles [] with
+    | err c p => simp [hl, Out.isOk] at h2
+    | ok l =>
+      rcases loadEnvFiles_ok_sound fs s.envFiles [] l hl e he with g | ⟨g, _⟩
+      · rw [g] at hm; simp [isMissing] at hm
+      · rw [hr] at g; cases g
+
+/-- … and the same for a label file (there is no optional form) -/
+theorem project_label_file_missing_err (fs : String → Disk) (skipEnv : Bool) (svcs : List Svc) (s : Svc) (p : String)
+    (hs : s ∈ svcs) (hp : p ∈ s.labelFiles) (hm : isMissing (fs p) = true) :
+    (resolveProject fs skipEnv svcs).isOk = false := by
+  cases h : (resolveProject fs skipEnv svcs).isOk with
+  | false => rfl
+  | true =>
+    exfalso
+    have h2 := ((resolveProject_ok_iff fs skipEnv svcs).mp h).2 s hs
+    cases hl : loadLabelFiles fs s.labelFiles [] with
+    | err c q => simp [hl, Out.isOk] at h2
+    | ok l =>
+      have g := loadLabelFiles_ok_sound fs s.labelFiles [] l hl p hp
+      rw [g] at hm; simp [isMissing] at hm
+
+/-- non-vacuity: the shape of seeded change C01-8 — service `a` marks `x.env` optional, service `b` requires it, nothing on disk -/
+example : (resolveProject (fun _ => .absent) false
+    [⟨[⟨"x.env", false⟩], []⟩, ⟨[⟨"x.env", true⟩], []⟩]).isOk = false :=
+  project_required_env_file_missing_err _ _ ⟨[⟨"x.env", true⟩], []⟩ ⟨"x.env", true⟩ (by simp) (by simp) rfl rfl
+
 end CV.C01
